@@ -124,9 +124,7 @@ static void ring_op(qr_o* r, const char* op, const char* pat, int argc, char** a
 	octet* e[3] = {0, 0, 0};
 	word* x[3];
 	word* c;
-	/* the gf2 multiplication and squaring depth formulas omit the 2n-word product they carve from the stack (depth defect, property C07,
-	   reported there; the zm rings were repaired by fddbd32): 2n words of slack keep this value check independent */
-	void* st = stk(r->deep + O_OF_W(2 * n));
+	void* st = stk(r->deep);   /* exactly the documented depth */
 	octet* o = (octet*)malloc(no);
 	int i, k = argc > 3 ? 3 : argc;
 	for (i = 0; i < k; ++i) e[i] = hex_arg(argv[i], &l[i]);
@@ -144,7 +142,7 @@ static void ring_op(qr_o* r, const char* op, const char* pat, int argc, char** a
 	{
 		/* power a <exponent as words> */
 		size_t m; word* ex = wa(argv[1], &m);
-		void* st2 = stk(qrPower_deep(n, m, r->deep) + O_OF_W(2 * n));
+		void* st2 = stk(qrPower_deep(n, m, r->deep));
 		x[0] = wnew(n); qrFrom(x[0], e[0], r, st);
 		c = HAS(pat, 'c') ? x[0] : wnew(n);
 		qrPower(c, x[0], ex, m, r, st2);
@@ -456,9 +454,7 @@ static void handle(int argc, char** argv)
 	if (IS("zzPowerMod") && argc == 3)
 	{
 		a = wa(argv[0], &n); b = wa(argv[1], &m); d = wa(argv[2], &k); c = wnew(n);
-		/* zzPowerMod_deep() omits the ring description (zmCreate_keep) that zzPowerMod carves from the stack:
-		   a depth defect (property C07), reported there; the slack keeps this value check independent of it */
-		zzPowerMod(c, a, n, b, m, d, stk(zzPowerMod_deep(n, m) + zmCreate_keep(O_OF_W(n)))); out_w(c, n); return;
+		zzPowerMod(c, a, n, b, m, d, stk(zzPowerMod_deep(n, m))); out_w(c, n); return;
 	}
 	if (IS("zzPowerModW") && argc == 3) { out_u(zzPowerModW(wd(argv[0]), wd(argv[1]), wd(argv[2]), stk(zzPowerModW_deep()))); return; }
 	if ((IS("zzRandMod") || IS("zzRandNZMod")) && argc == 2)
@@ -586,21 +582,17 @@ static void handle(int argc, char** argv)
 		ppRedPentanomial(a, &p); out_w(a, W_OF_B(p.m)); return;
 	}
 	if (IS("ppRedBelt") && argc == 1) { a = wa(argv[0], &n); ppRedBelt(a); out_w(a, W_OF_B(128)); return; }
-	if (IS("ppIsIrred") && argc == 1) { a = wa(argv[0], &n); 
-		/* ppIsIrred_deep() counts only its own two n-word variables, not the stack of ppGCD / ppSqrMod it calls:
-		   a depth defect (property C07), reported there; the slack keeps this value check independent of it */
-		out_u(ppIsIrred(a, n, stk(ppIsIrred_deep(n) + ppGCD_deep(n, n) + ppSqrMod_deep(n)))); return; }
+	if (IS("ppIsIrred") && argc == 1) { a = wa(argv[0], &n); out_u(ppIsIrred(a, n, stk(ppIsIrred_deep(n)))); return; }
 	if (IS("ppMinPoly") && argc == 2)
 	{
 		size_t l = (size_t)u_arg(argv[1]);
 		a = wa(argv[0], &n); c = wnew(W_OF_B(l + 1));
-		/* ppMinPoly_deep() omits the stack of the ppDiv it calls (depth defect, property C07, reported there) */
-		ppMinPoly(c, a, l, stk(ppMinPoly_deep(l) + ppDiv_deep(2 * W_OF_B(l) + 1, 2 * W_OF_B(l)))); out_w(c, W_OF_B(l + 1)); return;
+		ppMinPoly(c, a, l, stk(ppMinPoly_deep(l))); out_w(c, W_OF_B(l + 1)); return;
 	}
 	if (IS("ppMinPolyMod") && argc == 2)
 	{
 		a = wa(argv[0], &n); d = wa(argv[1], &k); c = wnew(n);
-		ppMinPolyMod(c, a, d, n, stk(ppMinPolyMod_deep(n) + O_OF_W(3 * n) + ppDiv_deep(2 * n + 1, 2 * n))); out_w(c, n); return;
+		ppMinPolyMod(c, a, d, n, stk(ppMinPolyMod_deep(n))); out_w(c, n); return;
 	}
 	/* -------------------------------------------------------------------- gf2 */
 	if (IS("gf2") && argc >= 6)
@@ -615,7 +607,7 @@ static void handle(int argc, char** argv)
 		{
 			size_t l; octet* e = hex_arg(argv[6], &l); a = wnew(r->n);
 			if (l != r->no || !qrFrom(a, e, r, st)) { out_s("not-in"); return; }
-			out_u(gf2Tr(a, r, stk(gf2Tr_deep(r->n, r->deep) + O_OF_W(2 * r->n)))); return;
+			out_u(gf2Tr(a, r, stk(gf2Tr_deep(r->n, r->deep)))); return;
 		}
 		if (strcmp(argv[5], "qsolve") == 0 && argc == 8)
 		{
@@ -623,7 +615,7 @@ static void handle(int argc, char** argv)
 			octet* o = (octet*)malloc(r->no);
 			a = wnew(r->n); b = wnew(r->n); c = wnew(r->n);
 			if (l != r->no || l2 != r->no || !qrFrom(a, e, r, st) || !qrFrom(b, e2, r, st)) { out_s("not-in"); return; }
-			ok = gf2QSolve(c, a, b, r, stk(gf2QSolve_deep(r->n, r->deep) + O_OF_W(2 * r->n)));
+			ok = gf2QSolve(c, a, b, r, stk(gf2QSolve_deep(r->n, r->deep)));
 			out_u(ok); if (ok) { qrTo(o, c, r, st); out_o(o, r->no); }
 			return;
 		}
